@@ -77,7 +77,7 @@ def main(ck, tier, w):
     groups = {}
     for rp in res.replay:
         groups.setdefault((rp['b'], rp['k']), []).append(rp['ops'])
-    flen = 10 if quick else 12
+    flen = 10
     ck.cov['exhaustive'] = quick
     ck.cov['rule'] = ('all sequences of %d calls (seek 0..len, read 1..6, reopen) x capacity {2..5} x key length {1,2,3,5} '
                       'replayed on the real reader at model scale and x8192; non-trivial = sequence containing a backward '
